@@ -65,3 +65,20 @@ Print Assumptions C12_ack_completes_released_reach.
 Theorem C12_instance_c12_auto_id_collision : run_client [262144] h_c12_auto_id_collision = o_c12_auto_id_collision.
 Proof. exact ProofsInstances.inst_c12_auto_id_collision. Qed.
 Print Assumptions C12_instance_c12_auto_id_collision.
+
+From Proto Require PropsOrder ProofsOrder.
+
+(* the broker in the sender role: every PUBREC on a connection, known identifier or not, is answered there by exactly one PUBREL with that identifier; the broker state is unchanged *)
+Theorem C12_broker_pubrec_pubrel : Proto.PropsOrder.C12_broker_pubrec_pubrel.
+Proof. exact Proto.ProofsOrder.broker_pubrec_pubrel. Qed.
+Print Assumptions C12_broker_pubrec_pubrel.
+
+(* ... seen from the wire *)
+Theorem C12_broker_pubrec_pubrel_wire : Proto.PropsOrder.C12_broker_pubrec_pubrel_wire.
+Proof. exact Proto.ProofsOrder.broker_pubrec_pubrel_wire. Qed.
+Print Assumptions C12_broker_pubrec_pubrel_wire.
+
+(* PUBACK and PUBCOMP from a subscriber write nothing and close nothing *)
+Theorem C12_broker_ack_no_output : Proto.PropsOrder.C12_broker_ack_no_output.
+Proof. exact Proto.ProofsOrder.broker_ack_no_output. Qed.
+Print Assumptions C12_broker_ack_no_output.
